@@ -18,7 +18,7 @@ pub const FLOORS: &[&str] = &[
     "inspect", "addr:0", "addr:orig-1", "addr:orig", "addr:x7FFF", "addr:x8000", "addr:xFDFF",
     "addr:xFE00", "addr:xFFFF", "origin_high", "origin_low", "predefined_breakpoint_outside_user_space",
     "origin_zero", "origin_above_user_space", "wrong_case_label_rejected", "integer_beyond_32_bits_rejected",
-    "bare_number_like_label_is_a_number", "pc_outside_user_space", "integer_of_17_bits_rejected", "label_far_into_a_big_program",
+    "bare_number_like_label_is_a_number", "pc_outside_user_space", "integer_of_17_bits_rejected", "label_far_into_a_big_program", "eval_line_with_a_label_in_front_refused",
 ];
 
 const CMDS_PER_SESSION: u64 = 120;
@@ -287,6 +287,21 @@ fn one_case(seed: u64, i: u64, n_sessions: u64, sweep_all: bool) -> CaseOut {
                 2 => format!("break add {}", t),
                 _ => format!("break remove {}", t),
             }));
+            continue;
+        }
+        if rng.chance(1, 12) {
+            // a source line given to `eval` with a label of the program in front: refused ("expected an
+            // instruction"), and nothing changes - the label included, wherever the PC stands
+            let (name, base) = rng.pick(&labels).clone();
+            classes.push("eval_line_with_a_label_in_front_refused".into());
+            cmds.push(Cmd::Inspect(format!("{} {}{} {}", rng.s(&["eval", "e"]), name, rng.s(&["", ":"]), rng.s(&["add r1, r1, #1", "not r2 r2", "st r0 #1"]))));
+            // ... and the label is used right away
+            let l = Loc::Label(name, base, rng.range(-2, 3) as i32);
+            cmds.push(match rng.below(3) {
+                0 => Cmd::MoveMemLoc(l, rng.u16()),
+                1 => Cmd::BreakAddLoc(l),
+                _ => Cmd::GotoLoc(l),
+            });
             continue;
         }
         if rng.chance(1, 14) {
